@@ -196,6 +196,11 @@ def failure_scenarios():
                  oracle={"f": [{"error": "Boom"}, {"ok": 1}]}))
     S.append(scn("par-timeout", SM("P", P=Par([SM("A", A=T("f", TimeoutSeconds=2, End=True)), SM("B", B=T("g", End=True))], End=True)),
                  oracle={"f": [{"silent": True}]}))
+    # the machine-level TimeoutSeconds expiring inside a Wait, a Task, and a branch of a Parallel
+    S.append(scn("exec-timeout-wait", dict(SM("A", A=P(Next="W"), W=Wt(5, Next="Z"), Z=P(End=True)), TimeoutSeconds=2)))
+    S.append(scn("exec-timeout-task", dict(SM("A", A=T("f", Catch=[{"ErrorEquals": ["States.ALL"], "Next": "Z"}], Next="Z"), Z=P(End=True)), TimeoutSeconds=2),
+                 oracle={"f": [{"silent": True}]}))
+    S.append(scn("exec-timeout-par", dict(SM("P", P=Par([SM("A", A=Wt(5, End=True)), SM("B", B=T("g", End=True))], End=True)), TimeoutSeconds=2)))
     return S
 
 
